@@ -652,6 +652,49 @@ func (f *ndFunc) condFact(e ast.Expr) (string, bool, bool) {
 	if !f.stableCond(e) {
 		return "", false, false
 	}
+	// the value of a case clause of a tagged switch stands for tag == value
+	pm := parentMapCached(f.fd)
+	if cc, ok := pm[ast.Node(e)].(*ast.CaseClause); ok {
+		if blk, ok := pm[ast.Node(cc)].(*ast.BlockStmt); ok {
+			if sw, ok := pm[ast.Node(blk)].(*ast.SwitchStmt); ok && sw.Tag != nil {
+				if !f.stableCond(sw.Tag) {
+					return "", false, false
+				}
+				e = &ast.BinaryExpr{X: sw.Tag, Op: token.EQL, Y: e}
+			}
+		}
+	}
+	if tv, ok := f.info.Types[e]; ok && tv.Value != nil {
+		return "", false, false // constant
+	}
+	// x == true, x != false, ... are x / !x
+	for {
+		be, ok := e.(*ast.BinaryExpr)
+		if !ok || (be.Op != token.EQL && be.Op != token.NEQ) {
+			break
+		}
+		var other ast.Expr
+		var lit string
+		if id, ok := unparen(be.Y).(*ast.Ident); ok && (id.Name == "true" || id.Name == "false") {
+			other, lit = be.X, id.Name
+		} else if id, ok := unparen(be.X).(*ast.Ident); ok && (id.Name == "true" || id.Name == "false") {
+			other, lit = be.Y, id.Name
+		} else {
+			break
+		}
+		if (lit == "false") != (be.Op == token.NEQ) {
+			val = !val
+		}
+		e = unparen(other)
+		for {
+			u, ok := e.(*ast.UnaryExpr)
+			if !ok || u.Op != token.NOT {
+				break
+			}
+			val = !val
+			e = unparen(u.X)
+		}
+	}
 	if be, ok := e.(*ast.BinaryExpr); ok {
 		switch be.Op {
 		case token.NEQ:
@@ -1446,22 +1489,123 @@ func (f *ndFunc) run() {
 		}
 		if len(b.Succs) == 2 && len(b.Nodes) > 0 {
 			if cond, ok := b.Nodes[len(b.Nodes)-1].(ast.Expr); ok {
-				k, v, ok := f.condFact(cond)
-				if ok && strings.HasSuffix(k, ".IsNTT") {
-					// the flag of an element the function assigns: the test is about its current value
-					owner := strings.TrimSuffix(k, ".IsNTT")
-					if f.flagW[owner] || f.flagW[ndRoot(owner)] {
-						ok = false
-						if ms := lookup(s, owner+".#"); len(ms) == 1 && ms[0].kind == 'S' && !f.flagW[ms[0].sym] && !f.flagW[ndRoot(ms[0].sym)] {
-							k, ok = ms[0].sym+".IsNTT", true
+				atom := func(e ast.Expr) (string, bool, bool) {
+					k, v, ok := f.condFact(e)
+					if ok && strings.HasSuffix(k, ".IsNTT") {
+						// the flag of an element the function assigns: the test is about its current value
+						owner := strings.TrimSuffix(k, ".IsNTT")
+						if f.flagW[owner] || f.flagW[ndRoot(owner)] {
+							ok = false
+							if ms := lookup(s, owner+".#"); len(ms) == 1 && ms[0].kind == 'S' && !f.flagW[ms[0].sym] && !f.flagW[ndRoot(ms[0].sym)] {
+								k, ok = ms[0].sym+".IsNTT", true
+							}
 						}
 					}
+					return k, v, ok
 				}
-				if ok {
-					t, e := s.clone(), s.clone()
-					t.facts[k] = v
-					e.facts[k] = !v
-					res[0], res[1] = t, e
+				type lit struct {
+					k string
+					v bool
+				}
+				// decomp: the unit facts and the disjunctions that hold when e evaluates to want
+				var decomp func(e ast.Expr, want bool) ([]lit, [][]lit)
+				decomp = func(e ast.Expr, want bool) ([]lit, [][]lit) {
+					e = unparen(e)
+					if u, ok := e.(*ast.UnaryExpr); ok && u.Op == token.NOT {
+						return decomp(u.X, !want)
+					}
+					if be, ok := e.(*ast.BinaryExpr); ok && (be.Op == token.LAND || be.Op == token.LOR) {
+						if (be.Op == token.LAND) == want {
+							// both operands have the value `want`
+							u1, c1 := decomp(be.X, want)
+							u2, c2 := decomp(be.Y, want)
+							return append(u1, u2...), append(c1, c2...)
+						}
+						// at least one operand has the value `want`
+						u1, c1 := decomp(be.X, want)
+						u2, c2 := decomp(be.Y, want)
+						if len(u1) == 1 && len(c1) == 0 && len(u2) == 1 && len(c2) == 0 {
+							return nil, [][]lit{{u1[0], u2[0]}}
+						}
+						return nil, nil
+					}
+					if k, v, ok := atom(e); ok {
+						return []lit{{k, v == want}}, nil
+					}
+					return nil, nil
+				}
+				apply := func(units []lit, clauses [][]lit) *ndState {
+					t := s.clone()
+					for _, u := range units {
+						t.facts[u.k] = u.v
+					}
+					// values that cannot flow along this edge
+					for p, ms := range t.env {
+						var keep []ndMember
+						changedAny := false
+						for _, m := range ms {
+							if !ndFeasible(m, t.facts) {
+								continue
+							}
+							dead := false
+							for _, cl := range clauses {
+								contradicted, satisfied := 0, false
+								var open []lit
+								for _, l := range cl {
+									v, known := t.facts[l.k]
+									if !known {
+										v, known = ndMemberFact(m, l.k)
+									}
+									switch {
+									case !known:
+										open = append(open, l)
+									case v == l.v:
+										satisfied = true
+									default:
+										contradicted++
+									}
+								}
+								if satisfied {
+									continue
+								}
+								if contradicted == len(cl) {
+									dead = true
+								} else if len(open) == 1 && m.kind != 'T' {
+									// unit propagation: the only literal left must hold for this value
+									fs := []string{}
+									if m.facts != "" {
+										fs = strings.Split(m.facts, ";")
+									}
+									bit := "=0"
+									if open[0].v {
+										bit = "=1"
+									}
+									fs = append(fs, open[0].k+bit)
+									sort.Strings(fs)
+									m = ndMember{kind: m.kind, sym: m.sym, facts: strings.Join(fs, ";")}
+									changedAny = true
+								}
+							}
+							if !dead {
+								keep = append(keep, m)
+							}
+						}
+						if len(keep) != len(ms) || changedAny {
+							if len(keep) == 0 {
+								keep = []ndMember{{kind: 'T'}}
+							}
+							t.env[p] = keep
+						}
+					}
+					return t
+				}
+				tu, tc := decomp(cond, true)
+				fu, fc := decomp(cond, false)
+				if len(tu)+len(tc) > 0 {
+					res[0] = apply(tu, tc)
+				}
+				if len(fu)+len(fc) > 0 {
+					res[1] = apply(fu, fc)
 				}
 			}
 		}
